@@ -26,7 +26,7 @@ ASSUMPTIONS = [
     "each leaf alone (and each P@S group alone) is the reference for I_k: their own correctness is C01/C07's business",
     "combined parameters are located by position in the public parameter table: [X_scale,] part parameters ... per part",
 ]
-REQUIRED_MONITORS = ["equals_stated_combination", "order_independent"]
+REQUIRED_MONITORS = ["equals_stated_combination", "order_independent", "kernel_reuse_consistent"]
 REQUIRED_BUCKETS = {"quick": ["op:+", "op:*", "op:@", "nested:product-in-sum", "dim:1d", "dim:2d", "zero:some-component",
                               "zero:first-factor", "dispersity:>=2-components", "magnetic", "vector-component",
                               "python-component", "oriented-component", "lane:asan", "magnetic:all-sld-components", "magnetic:with-nonmagnetic-bystander"]}
@@ -354,6 +354,32 @@ def run_case(case, rec):
     rec.check("equals_stated_combination", ok,
               None if ok else dict(ctx, observed=I, expected=expected, zero_components=zeros,
                                    max_rel_err=core.maxrel(I, expected, 1e-12*smax)), key=key)
+    # ---- the same mixture kernel reused with another dispersity shape must agree with a fresh kernel
+    pdn = sorted(k for k in cpars if k.endswith("_pd_n"))
+    if pdn:
+        from sasmodels import direct_model
+        model = _info_cache[("model", cinfo.id, expr)]
+        kern = model.make_kernel(qv)
+        seq = [dict(cpars)]
+        v1 = dict(cpars)
+        v1[pdn[0]] = int(cpars[pdn[0]]) + 1
+        seq.append(v1)
+        if len(pdn) > 1:
+            v2 = dict(cpars)
+            v2[pdn[-1]] = int(cpars[pdn[-1]]) + 2
+            seq.append(v2)
+        seq.append(dict(cpars))
+        okr = True
+        wit = None
+        for step, pp in enumerate(seq):
+            reused = np.asarray(direct_model.call_kernel(kern, dict(pp)), float)
+            fresh = evaluate(expr, pp, qv)
+            if not np.array_equal(reused, fresh, equal_nan=True):
+                okr, wit = False, {"step": step, "changed": [k for k in pp if pp[k] != cpars.get(k)],
+                                   "reused_kernel": reused, "fresh_kernel": fresh}
+                break
+        rec.check("kernel_reuse_consistent", okr, None if okr else dict(ctx, **wit))
+        kern.release()
     # ---- order independence: reverse the terms and the factors within each term
     rterms = [list(reversed(t)) for t in reversed(terms)]
     rexpr = expr_string(rterms)
